@@ -6,6 +6,7 @@ sys.path.insert(0, os.path.join(core.ROOT, "tools"))
 import consts_hash  # noqa: E402
 
 ALGS = [("sm3", 64), ("sha1", 64), ("sha224", 64), ("sha256", 64), ("sha384", 128), ("sha512", 128)]
+DISPATCH_ONLY = [("sha512-224", 128), ("sha512-256", 128)]   # reachable through digest_from_name / DIGEST_* only
 IV_SM3 = "7380166f4914b2b9172442d7da8a0600a96f30bc163138aae38dee4db0fb0e4e"
 
 
@@ -79,8 +80,24 @@ def gen(ctx):
             for tail in (0, 1, B - (B // 8) - 1, B - (B // 8), B + 1):
                 m = r.bytes(tail)
                 add("hashst %s %d %s %s" % (alg, nb, st, chunks_str(r.split(m, 2))), "hashst:%s:nb>=2^%d:%s" % (alg, nb.bit_length() - 1, "pad2" if tail % B > B - B // 8 - 1 else "pad1"))
+    # --- digests that exist only behind the generic dispatch (SHA-512/224, SHA-512/256)
+    for alg, B in DISPATCH_ONLY:
+        add("digest %s -" % alg, "digest:%s:empty" % alg)
+        add("digest %s ." % alg, "digest:%s:nochunks" % alg)
+        add("digest1 %s -" % alg, "digest1:%s:empty" % alg)
+        add("digest1 %s 616263" % alg, "digest1:%s:abc" % alg)
+        for k in (1, 2, 3):
+            for d in (-B // 8 - 1, -B // 8, -B // 8 + 1, -1, 0, 1):
+                m = r.bytes(k * B + d)
+                cls = "pad-boundary" if d < -1 else "block-boundary"
+                add("digest %s %s" % (alg, chunks_str(r.split(m))), "digest:%s:%s" % (alg, cls))
+                add("digest1 %s %s" % (alg, hexs(m)), "digest1:%s:%s" % (alg, cls))
+        for i in range(nrand // 2):
+            m = r.bytes(r.below(maxlen) if not r.chance(1, 4) else r.below(3 * B))
+            k = r.range(1, 9)
+            add("digest %s %s" % (alg, chunks_str(r.split(m, k))), "digest:%s:random-k%d" % (alg, min(k, 4)))
     # --- HMAC: key lengths around the block size, every API style
-    for alg, B in ALGS:
+    for alg, B in ALGS + DISPATCH_ONLY:
         for kl in [1, 2, B - 1, B, B + 1, 4 * B] + ([hl for hl in (20, 32)] if thorough else [32]):
             key = r.bytes(kl)
             kcls = "key<=B" if kl <= B else "key>B"
